@@ -208,7 +208,9 @@ def setupFromFile(foldername, constantFile: str = None, **kwargs):
     else:
         list_of_files = glob("{0}/grid_*".format(foldername))
         if (len(list_of_files) > 0):
-            filename = max(list_of_files)
+            # the latest time, not the lexicographically largest name
+            filename = max(list_of_files, key=lambda f: float(
+                os.path.splitext(os.path.basename(f))[0].split('_')[-1]))
             t = int(filename.split('_')[-1].split('.')[0])
         else:
             filename = None
